@@ -1002,7 +1002,15 @@ public:
 	/*! Determine if this repeating group count field has any elements (> 0)
 	    \param bf Basefield *
 	    \return true if has count */
-	static bool has_group_count(const BaseField *bf) { return static_cast<const Field<int, 0> *>(bf)->get() > 0; }
+	static bool has_group_count(const BaseField *bf)
+	{
+		if (bf->get_underlying_type() == FieldTrait::ft_int)
+			return static_cast<const Field<int, 0> *>(bf)->get() > 0;
+		// count field declared with a non-integer type (FIX4.4: NoLegSecurityAltID is a String): use its text
+		std::ostringstream ostr;
+		bf->print(ostr);
+		return fast_atoi<int>(ostr.str().c_str()) > 0;
+	}
 
 	/*! Presence printer
 	    \param os stream to send to */
